@@ -548,9 +548,21 @@ pub fn check(case: &Case, trace: &Trace, cfg: BuildCfg, variant: Variant) -> Che
         got.sort();
         // generic instantiations share a path: sort makes the comparison order-insensitive
         if want != got {
+            // which aspect differs decides which properties are refuted besides C14 (composition):
+            // slot ranges are the expected ordered sequence (C04), the per-method order is the priority (C01)
+            let strip = |v: &Vec<(String, usize, Option<u32>, (usize, usize))>| -> Vec<(String, usize, Option<u32>)> {
+                v.iter().map(|(a, b, c, _)| (a.clone(), *b, *c)).collect()
+            };
+            let mut props = vec!["C14"];
+            if strip(&want) == strip(&got) {
+                props.push("C04");
+            } else {
+                props.push("C01");
+                props.push("C04");
+            }
             return result(
                 Some(Discrepancy {
-                    props: vec!["C14"],
+                    props,
                     at: "build".into(),
                     expected: format!("patterns (method, index, uid, slots) {want:?}"),
                     observed: format!("{got:?}"),
@@ -894,4 +906,26 @@ fn compare_snapshot(
         });
     }
     None
+}
+
+/// Does `text` contain every error message? Messages are joined by newlines in the verification text, so for
+/// large numbers of errors the test is done line-wise (every line of every message must be a line of the text,
+/// with multiplicity), which avoids a quadratic substring search.
+pub fn contains_all_errors(text: &str, errors: &[String]) -> bool {
+    if errors.len() <= 64 {
+        return errors.iter().all(|e| text.contains(e.as_str()));
+    }
+    let mut lines: std::collections::HashMap<&str, i64> = std::collections::HashMap::new();
+    for l in text.lines() {
+        *lines.entry(l).or_insert(0) += 1;
+    }
+    for e in errors {
+        for l in e.lines() {
+            match lines.get_mut(l) {
+                Some(n) if *n > 0 => *n -= 1,
+                _ => return false,
+            }
+        }
+    }
+    true
 }
